@@ -147,6 +147,8 @@ fn over_the_wire(r: &mut hvcommon::report::Report, tree: &staticlab::Tree, root:
                 std::thread::sleep(Duration::from_millis(stall));
                 match c.read_response(Duration::from_secs(30)) {
                     Ok(Some(m)) if m.status() == 200 && m.body == *content => r.count("over_the_wire_files_intact", 1),
+                    // the harness client itself was slower than the app's timeout between connect and first byte (loaded machine)
+                    Ok(Some(m)) if m.status() == 408 && timeout.is_some() => r.count("over_the_wire_discarded_client_slower_than_timeout", 1),
                     Ok(Some(m)) => r.violation("C06/wire:not-intact", format!("{}: status {}, {} body bytes, content {}", what, m.status(), m.body.len(), if m.body == *content { "equal" } else { "differs" }), ex, replay),
                     Ok(None) => r.violation("C06/wire:not-intact", format!("{}: no response", what), ex, replay),
                     Err(e) => r.violation("C06/wire:not-intact", format!("{}: response incomplete: {}", what, e.chars().take(120).collect::<String>()), ex, replay),
